@@ -842,7 +842,7 @@ impl Area for ChannelArea {
     }
     fn cases(&self, thorough: bool) -> u64 {
         if thorough {
-            60_000
+            40_000
         } else {
             5_000
         }
